@@ -7,6 +7,7 @@
 """
 import ast
 import os
+import re
 import fractions
 import time
 
@@ -20,6 +21,7 @@ from . import folds as FO
 from . import lists as LS
 from . import enumth as EN
 from . import solth as SO
+from .values import OpaqueTable
 
 
 _ARITH_KINDS = None
@@ -132,6 +134,7 @@ class Engine:
         self.solver.set("timeout", 20000)      # wall-clock safety net only; the resource limit decides
         self.facts = T.Facts()
         self._nfacts_pushed = 0
+        self._aids, self._aterms, self._akey = [], [], b""
         self.gn_terms, self._gn_const, self.gn_override = [], None, None
         self.pc = []
         self.prefix = list(prefix)
@@ -147,6 +150,7 @@ class Engine:
         self.store_eqs = []
         self.maxabs_reg = None
         self.wit_reg = None
+        self.cons_reg = None
         self.quantified = False
         self.taint = set()          # names of z3 constants standing for a symbolic weight (C16 non-interference)
         self.taint_hits = []
@@ -191,8 +195,18 @@ class Engine:
                 self.facts.intp_scan(fs[done:m])
                 done = m
         while self._nfacts_pushed < len(fs):
-            self.solver.add(fs[self._nfacts_pushed])
+            self._solver_add(fs[self._nfacts_pushed])
             self._nfacts_pushed += 1
+
+    def _solver_add(self, f):
+        """every formula asserted on the path goes through here: the running digest of their term ids is the key of
+        the query cache"""
+        self.solver.add(f)
+        import hashlib
+        i = f.get_id()
+        self._aids.append(i)
+        self._aterms.append(f)
+        self._akey = hashlib.blake2b(self._akey + i.to_bytes(8, "little", signed=True), digest_size=16).digest()
 
     def assume(self, f):
         if isinstance(f, bool):
@@ -200,10 +214,33 @@ class Engine:
                 raise PathInfeasible()
             return
         self.pc.append(f)
-        self.solver.add(f)
+        self._solver_add(f)
 
     def _check(self, *extra, portfolio=False):
         self._sync()
+        t0 = time.time()
+        # paths are explored by re-execution: the queries of the common prefix recur verbatim (terms are hash-consed,
+        # fresh names are numbered per path), so their answers are remembered for the function under verification
+        cache = getattr(self, "_qcache", None)
+        if cache is None:
+            cache = self._qcache = {}
+            self._qkeep = []
+        try:
+            key = (self._akey, len(self._aids), tuple(e.get_id() for e in extra), bool(portfolio))
+        except Exception:
+            key = None
+        if key is not None and key in cache:
+            r_c, backend = cache[key]
+            self.last_backend = backend
+            self.stats["cache_hits"] = self.stats.get("cache_hits", 0) + 1
+            return r_c, None
+        r, model = self._check_uncached(*extra, portfolio=portfolio)
+        if key is not None and (r == z3.unsat or (r == z3.sat and not portfolio)):
+            cache[key] = (r, getattr(self, "last_backend", "z3"))
+            self._qkeep.append((list(self._aterms), list(extra)))       # keep the terms alive: their ids are the key
+        return r, model
+
+    def _check_uncached(self, *extra, portfolio=False):
         t0 = time.time()
         if portfolio and getattr(self, "quantified", False):
             # queries with quantified hypotheses (forall_key invariants, the enumeration theory): the incremental
@@ -466,7 +503,13 @@ class Engine:
         if st == "discharged" and os.environ.get("QVC_CROSSCHECK") and not isinstance(goal, bool):
             # thorough tier: an independent back end (z3 4.8.12 command line) must not contradict the verdict
             rec["second_backend"] = self._second_opinion(z3.Not(goal))
-        if st == "discharged" and ("/post" in kind or ".step" in kind or "/effect" in kind or ".item" in kind):
+        fam = re.sub(r"(\.c\d+|#\d+)$", "", kind)
+        seen_fam = getattr(self, "_canary_seen", None)
+        if seen_fam is None or seen_fam[0] != self.stats["paths"]:
+            seen_fam = self._canary_seen = (self.stats["paths"], set())
+        if st == "discharged" and ("/post" in kind or ".step" in kind or "/effect" in kind or ".item" in kind) \
+                and fam not in seen_fam[1]:
+            seen_fam[1].add(fam)
             # canary / vacuity: the negated goal is refuted, so the goal itself must be satisfiable here
             r2, _ = self._check(goal)
             rec["canary"] = (r2 != z3.unsat)
@@ -827,8 +870,13 @@ class Engine:
                     less = not less     # now: a < b
                     return less if isinstance(op, (ast.Lt, ast.LtE)) else (not less)
                 return less if isinstance(op, (ast.Lt, ast.LtE)) else (not less)
+        def _lab(v):
+            return isinstance(v, SV) and v.t == "label"
         if (is_num(a) or isinstance(a, bool)) and (is_num(b) or isinstance(b, bool)):
             x, y = a, b
+        elif (_lab(a) or _lab(b)) and all(_lab(v) or is_intlike(v) for v in (a, b)):
+            # integer labels (the labels of an enumerated model) compared as integers
+            x, y = zint(a), zint(b)
         elif is_intlike(a) and is_intlike(b):
             x, y = zint(a), zint(b)
         else:
@@ -986,6 +1034,9 @@ class Engine:
         if isinstance(container, (DictVal, PObj)):
             ver = self.store_of(container)
             k = self.as_dictkey(ver, item)
+            if ver.ksort == T.Key and ver.vsort == T.Int:
+                from .specfuncs import cons_note_key
+                cons_note_key(self, k)
             return z3.Select(ver.dom, k)
         if isinstance(container, SetVal):
             return z3.Select(container.mem, self.as_label(item))
@@ -993,6 +1044,12 @@ class Engine:
             return T.memb(self.as_label(item), container.e)
         if isinstance(container, AssignVal):
             return True
+        if isinstance(container, (frozenset, set)):
+            cs = [self.equals(item, m) for m in container]
+            if any(c is True for c in cs):
+                return True
+            cs = [c for c in cs if c is not False]
+            return z3.Or(*cs) if cs else False
         raise Unsupported("`in` on %r" % (type(container).__name__,))
 
     def as_dictkey(self, ver, k):
@@ -1035,6 +1092,10 @@ class Engine:
 
     def raw_setitem(self, holder, k, v):
         ver = holder.ver
+        if ver.kind == "empty" and ver.vsort == T.Real and ((isinstance(v, SV) and v.t in ("int", "label")) or
+                                                          (isinstance(v, int) and not isinstance(v, bool) and False)):
+            # `d = {}` followed by d[key] = <integer label>: a table key -> integer (e.g. the reductions of C01)
+            ver = holder.ver = FO.empty(self, ver.ksort, T.Int)
         kk = self.as_dictkey(ver, k)
         c = zreal(v) if ver.vsort == T.Real else zint(v)
         self.write_store(holder, FO.setitem(self, ver, kk, c))
@@ -1248,7 +1309,73 @@ class Engine:
             raise PyExc("AssertionError")
 
     def st_While(self, s, fr):
-        raise Unsupported("while loop (needs invariant support)")
+        """while loop cut at an invariant (contract.loops["w<n>"], n = ordinal among the while loops of the function):
+        init / step (arbitrary iteration: havoc, assume invariant and condition, execute the body, re-establish) /
+        exit (invariant and negated condition)."""
+        if s.orelse:
+            raise Unsupported("while/else")
+        ordinal = self.static_ordinal(fr, s, ast.While)
+        c = self.frame_contract(fr)
+        spec = c.loops.get("w%d" % ordinal) if c is not None else None
+        if spec is None:
+            raise Unsupported("while loop %d of %s has no invariant" % (ordinal, fr.closure.qualname() if fr.closure else "?"))
+        qn = fr.closure.qualname()
+        kindname = "while%d" % ordinal
+        sig = "while %s" % ast.unparse(s.test)
+        want = (getattr(self, "loopsigs", None) or {}).get(qn, {}).get("w%d" % ordinal)
+        if want is not None and want != sig:
+            raise Unsupported("while loop %d of %s was %r when its invariant was written, now %r" % (ordinal, qn, want, sig))
+        self.seen_loopsigs.setdefault(qn, {})["w%d" % ordinal] = sig
+        names, objnames = self.modified_in(s.body, fr)
+        for extra in spec.get("modifies", ()):
+            objnames.add(extra)
+        objnames = {p for p in objnames if not any(p != q and p.startswith(q + ".") for q in objnames)}
+        if not hasattr(self, "loop_pre") or self.loop_pre is None:
+            self.loop_pre = []
+        self.loop_pre.append((dict(fr.locals), self.snapshot(list(fr.locals.values()))))
+        inv_ast = ast.parse(spec["invariant"], mode="eval").body
+        conjuncts = inv_ast.values if isinstance(inv_ast, ast.BoolOp) and isinstance(inv_ast.op, ast.And) else [inv_ast]
+
+        def inv_parts():
+            out = []
+            for cj in conjuncts:
+                t = self.tobool(self.eval_spec(cj, dict(fr.locals), fr))
+                out.append(z3.BoolVal(t) if isinstance(t, bool) else t)
+            return out
+
+        def oblige_inv(kind):
+            for ci, p in enumerate(inv_parts()):
+                self.oblige("%s.c%d" % (kind, ci) if len(conjuncts) > 1 else kind, p, note=ast.unparse(conjuncts[ci])[:160])
+        oblige_inv("%s/%s.init" % (qn, kindname))
+        allowed = self._loop_havoc(spec, names, objnames, fr)
+        alloc_mark = getattr(self, "nalloc", 0)
+        if self.loop_phase("w%d" % ordinal, fr) == "step":
+            for p in inv_parts():
+                self.assume(p)
+            if not self.branch(self.tobool(self.eval(s.test, fr))):
+                raise PathInfeasible()
+            saved_fw = self.frame_writes
+            self.frame_writes = set()
+            try:
+                self.exec_block(s.body, fr)
+            except _Continue:
+                pass
+            except _Break:
+                raise Unsupported("break out of a while loop")
+            finally:
+                fw, self.frame_writes = self.frame_writes, saved_fw
+                if saved_fw is not None:
+                    saved_fw |= fw
+            for w in fw:
+                if w not in allowed and self._preexisting(w, alloc_mark):
+                    raise Unsupported("loop frame inference missed a write to %r" % (w,))
+            oblige_inv("%s/%s.step" % (qn, kindname))
+            raise PathInfeasible()
+        for p in inv_parts():
+            self.assume(p)
+        if self.branch(self.tobool(self.eval(s.test, fr))):
+            raise PathInfeasible()
+        self.loop_pre.pop()
 
     # ------------------------------------------------------------------ for loops
     def st_For(self, s, fr):
@@ -1299,6 +1426,10 @@ class Engine:
     def concrete_iter(self, it):
         if isinstance(it, (tuple, list)):
             return list(it)
+        if isinstance(it, (frozenset, set)):
+            return list(it)
+        if isinstance(it, DictVal) and it.ver.kind == "empty":
+            return []            # a dict literal nothing was written to
         if isinstance(it, ListVal):
             return list(it.items)
         if isinstance(it, range):
@@ -1441,7 +1572,9 @@ class Engine:
         keys = set()
         if owner is not None:
             keys.add((id(owner), attr))
-        if isinstance(v, EN.Groups):
+        if isinstance(v, OpaqueTable):
+            keys.add(id(v))
+        elif isinstance(v, EN.Groups):
             keys.add(id(v))
             EN.havoc_groups(self, v, path.replace(".", "_"))
         elif isinstance(v, (DictVal, PObj, SetVal)):
@@ -1468,6 +1601,8 @@ class Engine:
             return self.fresh("int", hint)
         if is_num(v):
             return self.fresh("real", hint)
+        if isinstance(v, tuple) and all(isinstance(x, SV) and x.t in ("label", "int") or (isinstance(x, (int, str)) and not isinstance(x, bool)) for x in v):
+            return self.fresh("key", hint)          # a tuple of labels (possibly empty) that the loop rebuilds
         return Opaque("havocked %s (was %s)" % (hint, type(v).__name__))
 
     def havoc_object(self, o, hint):
@@ -1495,6 +1630,49 @@ class Engine:
             self.facts.add(z3.And(o.card >= 0, o.card == T.CARD(o.mem)))
         else:
             raise Unsupported("cannot havoc object of type %s" % type(o).__name__)
+
+    def _loop_havoc(self, spec, names, objnames, fr):
+        """forget everything the loop body may change (locals assigned, objects written); returns the set of heap
+        locations the body is allowed to write"""
+        for n_, kind_ in spec.get("vars", {}).items():
+            v_ = fr.locals.get(n_)
+            if kind_ == "inttable" and isinstance(v_, DictVal) and v_.ver.kind == "empty" and v_.ver.vsort == T.Real:
+                v_.ver = FO.empty(self, v_.ver.ksort, T.Int)      # `d = {}` that will hold integer labels
+        live = [n for n in names if n in fr.locals]
+        for n in live:
+            v = fr.locals[n]
+            if isinstance(v, (DictVal, PObj, SetVal, EN.Groups, OpaqueTable)):
+                continue
+            kind = spec.get("vars", {}).get(n)
+            if kind in ("bestpair", "bestpair2"):
+                continue            # after the havoc of the objects (it forks the path)
+            if kind == "optrid":
+                fr.locals[n] = self.fresh_optrid(n)
+            else:
+                fr.locals[n] = self.havoc_value(v, n)
+        allowed = set()
+        for on in sorted(objnames | set(live)):
+            allowed |= self.havoc_path(fr, on)
+        for n in live:
+            if spec.get("vars", {}).get(n) == "bestpair2":
+                # (None, None) before any pair was examined, (None, pair) for a pair taken from the hints,
+                # (frequency, pair) otherwise; pair is a 2-tuple of labels
+                self.nfresh += 1
+                which = z3.Int("%s_shape!%d" % (n, self.nfresh))
+                if self.branch(which == 0):
+                    fr.locals[n] = (None, None)
+                else:
+                    pr = (self.fresh("label", n + "_p0"), self.fresh("label", n + "_p1"))
+                    fr.locals[n] = ((None if self.branch(which == 1) else self.fresh("int", n + "_freq")), pr)
+            if spec.get("vars", {}).get(n) == "bestpair":
+                # best = (None, {}) before the first valid assignment, (value, assignment) afterwards: the havocked
+                # pair is one or the other (the path forks)
+                self.nfresh += 1
+                if self.branch(z3.Bool("%s_none!%d" % (n, self.nfresh))):
+                    fr.locals[n] = (None, self.alloc(DictVal(FO.empty(self, T.Key, T.Real))))
+                else:
+                    fr.locals[n] = (self.fresh("real", n + "_value"), EN.fresh_asg(self, n + "_solution"))
+        return allowed
 
     def symbolic_for(self, s, it, fr, ordinal):
         spec = self.loop_spec(fr, ordinal)
@@ -1532,6 +1710,9 @@ class Engine:
             filt, it = it.data
         if isinstance(it, tuple) and it and all(isinstance(x, SV) and x.t == "label" for x in it):
             it = SV(self.as_key(it), "key")
+        enum = False
+        if isinstance(it, SeqIter) and it.kind == "enumkey":
+            enum, it = True, it.data
         if isinstance(it, ItemsView):
             ckind, coll = "dict", it.ver
             if not it.snapshot and it.owner is not None:
@@ -1633,31 +1814,7 @@ class Engine:
         else:
             g0 = SV(coll[0], "int")
         oblige_inv("%s/%s.init" % (qn, kindname), g0)
-        # ---- havoc
-        live = [n for n in names if n in fr.locals]
-        for n in live:
-            v = fr.locals[n]
-            if isinstance(v, (DictVal, PObj, SetVal, EN.Groups)):
-                continue
-            kind = spec.get("vars", {}).get(n)
-            if kind == "bestpair":
-                continue            # after the havoc of the objects (it forks the path)
-            if kind == "optrid":
-                fr.locals[n] = self.fresh_optrid(n)
-            else:
-                fr.locals[n] = self.havoc_value(v, n)
-        allowed = set()
-        for on in sorted(objnames | set(live)):
-            allowed |= self.havoc_path(fr, on)
-        for n in live:
-            if spec.get("vars", {}).get(n) == "bestpair":
-                # best = (None, {}) before the first valid assignment, (value, assignment) afterwards: the havocked
-                # pair is one or the other (the path forks)
-                self.nfresh += 1
-                if self.branch(z3.Bool("%s_none!%d" % (n, self.nfresh))):
-                    fr.locals[n] = (None, self.alloc(DictVal(FO.empty(self, T.Key, T.Real))))
-                else:
-                    fr.locals[n] = (self.fresh("real", n + "_value"), EN.fresh_asg(self, n + "_solution"))
+        allowed = self._loop_havoc(spec, names, objnames, fr)
         alloc_mark = getattr(self, "nalloc", 0)
         # ---- step (explored as a side path: decisions made inside the step are local to it)
         if self.loop_phase(ordinal, fr) == "step":
@@ -1686,6 +1843,8 @@ class Engine:
                 self.assume(coll.e == self.facts.concat(pre2.e, rest.e))
                 self.facts.add(T.memb(i.e, coll.e))
                 item, vis2 = i, pre2
+                if enum:
+                    item = (SV(z3.Length(pre.e), "int"), i)
             elif ckind == "list":
                 vis = LS.base(self, "visited")
                 fr.locals[gname] = vis
@@ -1757,16 +1916,26 @@ class Engine:
                 self.assign(s.target, item, fr)
                 saved_fw = self.frame_writes
                 self.frame_writes = set()
+                broke = False
                 try:
                     self.exec_block(s.body, fr)
                 except _Continue:
                     pass
                 except _Break:
-                    raise Unsupported("break inside an invariant loop")
+                    broke = True
                 finally:
                     fw, self.frame_writes = self.frame_writes, saved_fw
                     if saved_fw is not None:
                         saved_fw |= fw
+                if broke:
+                    # `break` at an arbitrary iteration: the path goes on after the loop, in the state reached (the
+                    # invariant held when this iteration began; nothing is claimed about the unvisited elements)
+                    for w in fw:
+                        if w not in allowed and self._preexisting(w, alloc_mark):
+                            raise Unsupported("loop frame inference missed a write to %r" % (w,))
+                    fr.locals.pop(gname, None)
+                    self.loop_pre.pop()
+                    return
                 for w in fw:
                     if w not in allowed and self._preexisting(w, alloc_mark):
                         raise Unsupported("loop frame inference missed a write to %r" % (w,))
@@ -1851,7 +2020,7 @@ class Engine:
             f = f.closure.env if (f.closure is not None and isinstance(f.closure.env, Frame)) else None
         return self.global_name(name, fr)
 
-    BUILTIN_FUNCS = {"len", "isinstance", "type", "tuple", "sorted", "set", "abs", "max", "min", "sum", "all", "any",
+    BUILTIN_FUNCS = {"defaultdict", "len", "isinstance", "type", "tuple", "sorted", "set", "abs", "max", "min", "sum", "all", "any",
                      "range", "enumerate", "map", "filter", "float", "int", "pow", "callable", "dict", "list", "str",
                      "getattr", "hasattr", "super", "bool", "round", "ceil", "log", "zip", "iter", "next", "id",
                      "prod"}        # prod: math.prod (`from math import prod`), the exact product of a list
@@ -2037,9 +2206,27 @@ class Engine:
                 if not self.spec and not self.branch(z3.Length(obj.e) >= 1):
                     return ()
                 return SV(self.facts.tail(obj.e), "key")
-            if lo is None and hi == -1:
-                raise Unsupported("key[:-1]")
+            return self._key_slice(obj, lo, hi)
         raise Unsupported("slice of %s" % type(obj).__name__)
+
+    def _key_slice(self, k, lo, hi):
+        """k[lo:hi] of a symbolic tuple of labels, python semantics (negative bounds count from the end, bounds are
+        clamped); stated as a decomposition k == before + result + after, so that products and member sets split"""
+        n = z3.Length(k.e)
+
+        def bound(b, default):
+            if b is None:
+                return default
+            e = zint(b)
+            return z3.If(e < 0, z3.If(n + e < 0, z3.IntVal(0), n + e), z3.If(e > n, n, e))
+        a = bound(lo, z3.IntVal(0))
+        b = bound(hi, n)
+        b2 = z3.If(b < a, a, b)
+        before, res, after = self.fresh("key", "sl_before"), self.fresh("key", "sl"), self.fresh("key", "sl_after")
+        left = self.facts.concat(before.e, res.e)
+        self.facts.add(z3.And(k.e == self.facts.concat(left, after.e), z3.Length(before.e) == a,
+                              z3.Length(res.e) == b2 - a))
+        return res
 
     def getitem(self, obj, idx):
         if isinstance(obj, PObj):
@@ -2049,12 +2236,17 @@ class Engine:
         if isinstance(obj, DictVal):
             ver = self.store_of(obj)
             kk = self.as_dictkey(ver, idx)
+            if ver.ksort == T.Key and ver.vsort == T.Int:
+                from .specfuncs import cons_note_key
+                cons_note_key(self, kk)
             if not self.spec and not self.branch(z3.Select(ver.dom, kk)):
                 raise PyExc("KeyError")
             return SV(z3.Select(ver.val, kk), "real" if ver.vsort == T.Real else "int")
         if isinstance(obj, Ver):
             kk = self.as_dictkey(obj, idx)
             return SV(z3.Select(obj.val, kk), "real" if obj.vsort == T.Real else "int")
+        if isinstance(obj, OpaqueTable):
+            return self.fresh("int", "freq")
         if isinstance(obj, EN.Groups):
             return EN.groups_getitem(self, obj, idx)
         if isinstance(obj, SO.SolVal) and obj.view is None:
@@ -2116,6 +2308,14 @@ class Engine:
                 e = obj.e[idx]
                 self.facts.label(e)
                 return SV(e, "label")
+            if isinstance(idx, SV) and idx.t == "int":
+                n = z3.Length(obj.e)
+                i = z3.If(idx.e < 0, idx.e + n, idx.e)
+                if not self.spec and not self.branch(z3.And(i >= 0, i < n)):
+                    raise PyExc("IndexError")
+                e = obj.e[i]
+                self.facts.label(e)
+                return SV(e, "label")
             raise Unsupported("key index")
         if isinstance(obj, AssignVal):
             i = self.as_label(idx)
@@ -2139,6 +2339,10 @@ class Engine:
             return self.call_method(obj, "__setitem__", [idx, v], {})
         if isinstance(obj, DictVal):
             return self.raw_setitem(obj, idx, v)
+        if isinstance(obj, OpaqueTable):
+            if self.frame_writes is not None:
+                self.frame_writes.add(id(obj))
+            return
         if isinstance(obj, ListVal) and isinstance(idx, int):
             if not -len(obj.items) <= idx < len(obj.items):
                 raise PyExc("IndexError")
